@@ -34,6 +34,8 @@ pub struct E1Run {
     /// recorded choice list; when present the run is a replay and `strategy` is only descriptive
     pub schedule: Option<Vec<u8>>,
     pub shape: String,
+    /// allocator calls made inside library calls are scheduling points (sub-node preemption)
+    pub alloc_yield: bool,
 }
 
 #[derive(Clone, Debug, PartialEq)]
@@ -135,6 +137,7 @@ impl E1Run {
             "strategy": strategy_json(&self.strategy),
             "fault": self.fault.as_ref().map(|f| json!({"kind": "emit-fails", "thread": f.thread, "op": f.op, "emit": f.emit})),
             "ambient": self.ambient.to_json(),
+            "alloc_yield": self.alloc_yield,
             "schedule_rle": self.schedule.as_ref().map(|s| rle(s)),
         })
     }
@@ -174,6 +177,7 @@ impl E1Run {
                 _ => None,
             },
             shape: v.get("shape").and_then(|s| s.as_str()).unwrap_or("replay").to_string(),
+            alloc_yield: v.get("alloc_yield").and_then(|s| s.as_bool()).unwrap_or(false),
         })
     }
     pub fn total_ops(&self) -> usize {
@@ -456,8 +460,11 @@ pub fn gen_run(seed: u64, params: &GenParams, corpus: &Corpus, oracle: &mut Orac
     }
     // --- ambient
     let ambient = Ambient::draw(&mut rng);
+    // --- granularity knob: in a third of the multi-thread runs every allocator call is a point too
+    let alloc_yield = nthreads >= 2 && rng.chance(1, 3);
+    let scale: u64 = if alloc_yield { 12 } else { 1 };
     // --- strategy
-    let expected: u64 = threads.iter().flatten().map(|op| oracle.query(op, ORACLE_STACK_KB).steps + 2).sum();
+    let expected: u64 = threads.iter().flatten().map(|op| (oracle.query(op, ORACLE_STACK_KB).steps + 2) * scale).sum();
     let mut order: Vec<u8> = (0..nthreads as u8).collect();
     rng.shuffle(&mut order);
     let strategy = if nthreads == 1 {
@@ -470,12 +477,12 @@ pub fn gen_run(seed: u64, params: &GenParams, corpus: &Corpus, oracle: &mut Orac
             3 => Strategy::Pct { d: rng.range(1, 3) as u32, expected: expected.max(1) },
             _ => {
                 let victim_ops = &threads[order[0] as usize];
-                let victim_steps: u64 = victim_ops.iter().map(|op| oracle.query(op, ORACLE_STACK_KB).steps + 2).sum();
+                let victim_steps: u64 = victim_ops.iter().map(|op| (oracle.query(op, ORACLE_STACK_KB).steps + 2) * scale).sum();
                 Strategy::OnePreempt { order, k: rng.below(victim_steps.max(1) as usize) as u64 }
             }
         }
     };
-    E1Run { seed, threads, stack_kb, strategy, fault, ambient, schedule: None, shape: shapes.join("+") }
+    E1Run { seed, threads, stack_kb, strategy, fault, ambient, schedule: None, shape: shapes.join("+"), alloc_yield }
 }
 
 // ---------------------------------------------------------------------------------------------
@@ -729,7 +736,14 @@ fn child_body(run: &E1Run, isos: &[Vec<Arc<Iso>>], raw_fd: i32) -> RunReport {
         Some(list) => Chooser::replay(list.clone()),
         None => Chooser::from_strategy(run.strategy.clone(), run.threads.len(), Rng::new(mix(run.seed, &[0x5c4ed])))
     };
-    let spec = RunSpec { threads: &run.threads, stack_kb: &run.stack_kb, fault: run.fault.clone(), step_cap: STEP_CAP, watchdog: Duration::from_secs(10) };
+    let spec = RunSpec {
+        threads: &run.threads,
+        stack_kb: &run.stack_kb,
+        fault: run.fault.clone(),
+        step_cap: if run.alloc_yield { STEP_CAP * 10 } else { STEP_CAP },
+        alloc_yield: run.alloc_yield,
+        watchdog: Duration::from_secs(10),
+    };
     let pool_dyn: Arc<dyn Pool + Send + Sync> = pool.clone();
     let out = sched::execute(&spec, chooser, pool_dyn, &|_| Vec::new());
     let _ = std::io::stdout().flush();
